@@ -16,6 +16,8 @@ func genMutSpec(r *rand.Rand, tcp bool) MutSpec {
 	kinds := []string{"flip", "flip", "flip", "subst", "insert", "delete"}
 	if tcp {
 		kinds = append(kinds, "truncate", "swap", "replay", "splice")
+	} else {
+		kinds = append(kinds, "reflect")
 	}
 	m.Kind = kinds[r.Intn(len(kinds))]
 	if m.Kind == "delete" && r.Intn(3) == 0 {
@@ -76,6 +78,9 @@ func c04Case(c *Ctx) *Result {
 		params["target"] = fmt.Sprintf("%s skip=%d", kind, skip)
 		x.SetupPlan = func(fp *FaultPlan) {
 			fp.Rules = []*Rule{{Dir: int(dir), Kind: kind, Seq: -1, SIDIdx: -1, Action: "mutate", Count: 1 + r.Intn(2), Mut: &spec, Skip: skip}}
+			if spec.Kind == "reflect" {
+				fp.Rules = []*Rule{{Dir: int(dir), Kind: "data", Seq: -1, SIDIdx: -1, Action: "reflect", Count: 3 + r.Intn(12), DelayMs: pick(r, 0, 0, 1)}}
+			}
 		}
 	} else {
 		segIdx := r.Intn(12)
@@ -167,7 +172,10 @@ func c04Case(c *Ctx) *Result {
 		return res
 	}
 	var sig, detail string
-	if udp {
+	if udp && spec.Kind == "reflect" {
+		// an inserted datagram: only the safety clause applies
+		sig, detail = judgeStreams(o.RS, x.Plans, false)
+	} else if udp {
 		// modified datagram must behave as lost: stream completes intact
 		sig, detail = judgeStreamsNoTail(o.RS, x.Plans)
 		if sig == "" && o.TimedOut {
